@@ -472,34 +472,41 @@ Proof.
     f_equal. lia.
 Qed.
 
+(* problems contributed by one file: its messages, or 1 when it failed to parse *)
+Definition file_problems (o : outcome) : nat :=
+  (n_messages o + (if is_parse_failure o then 1 else 0))%nat.
+
 Lemma validate_file_spec st f :
   validate_file st f =
   mk_vstate (echoed st ++ file_lines f)
             (validation_count st + (if file_ok (snd f) then 1 else 0))
-            (errors st + n_messages (snd f)).
+            (errors st + file_problems (snd f)).
 Proof.
-  destruct f as [fn o]. unfold validate_file, file_lines. cbn [fst snd].
+  destruct f as [fn o]. unfold validate_file, file_lines, file_problems. cbn [fst snd].
   destruct o as [|msgs].
-  - cbn [file_ok n_messages]. rewrite !Nat.add_0_r. reflexivity.
+  - cbn [file_ok n_messages is_parse_failure]. rewrite Nat.add_0_r. f_equal. lia.
   - destruct msgs as [|v msgs].
-    + cbn [file_ok n_messages length]. rewrite Nat.add_0_r. f_equal. lia.
-    + rewrite echo_messages_spec. cbn [file_ok n_messages]. rewrite Nat.add_0_r. reflexivity.
+    + cbn [file_ok n_messages is_parse_failure length]. rewrite !Nat.add_0_r. f_equal. lia.
+    + rewrite echo_messages_spec. cbn [file_ok n_messages is_parse_failure]. rewrite !Nat.add_0_r. reflexivity.
 Qed.
 
 Lemma fold_validate_spec files : forall st,
   fold_left validate_file files st =
   mk_vstate (echoed st ++ flat_map file_lines files)
             (validation_count st + count_ok files)
-            (errors st + total_messages files).
+            (errors st + problems files).
 Proof.
-  induction files as [|f files IH]; intros st; cbn [fold_left flat_map count_ok total_messages].
+  unfold problems.
+  induction files as [|f files IH]; intros st; cbn [fold_left flat_map count_ok total_messages parse_failures].
   - rewrite app_nil_r, !Nat.add_0_r. destruct st; reflexivity.
-  - rewrite IH, validate_file_spec. cbn [echoed validation_count errors].
+  - rewrite IH, validate_file_spec. cbn [echoed validation_count errors]. unfold file_problems.
     rewrite <- app_assoc. f_equal; lia.
 Qed.
 
+(* the errors counter is the number of problems: every validation message and
+   every file that failed to parse *)
 Lemma validate_loop_spec files :
-  validate_loop files = mk_vstate (flat_map file_lines files) (count_ok files) (total_messages files).
+  validate_loop files = mk_vstate (flat_map file_lines files) (count_ok files) (problems files).
 Proof. unfold validate_loop. rewrite fold_validate_spec. reflexivity. Qed.
 
 (* what the command prints: one line per message (or the one-line verdict)
@@ -512,91 +519,62 @@ Proof.
   rewrite validate_loop_spec. reflexivity.
 Qed.
 
-(* the exit status is the number of validation messages modulo 256 *)
+(* the exit status is the number of problems capped at 255 *)
 Lemma validate_status_exact files :
-  validate_status files = (N.of_nat (total_messages files) mod 256)%N.
+  validate_status files = N.min (N.of_nat (problems files)) 255.
 Proof.
   unfold validate_status, validate_cmd. destruct files as [|f files]; [reflexivity|].
-  rewrite validate_loop_spec. reflexivity.
+  rewrite validate_loop_spec. cbn [snd]. unfold validate_exit_arg, exit_status. cbn [errors].
+  apply N.mod_small. lia.
 Qed.
 
-Lemma all_ok_no_messages files : all_ok files = true -> total_messages files = O /\ parse_failures files = O.
+Lemma all_ok_no_problems files : all_ok files = true -> problems files = O.
 Proof.
-  unfold all_ok. induction files as [|[fn o] files IH]; cbn [forallb total_messages parse_failures snd]; [auto|].
-  intros H. apply andb_true_iff in H. destruct H as [Ho Hr]. destruct (IH Hr) as [-> ->].
-  destruct o as [|[|v msgs]]; try discriminate. split; reflexivity.
+  unfold all_ok, problems.
+  induction files as [|[fn o] files IH]; cbn [forallb total_messages parse_failures snd]; [auto|].
+  intros H. apply andb_true_iff in H. destruct H as [Ho Hr]. specialize (IH Hr).
+  destruct o as [|[|v msgs]]; try discriminate. cbn [n_messages is_parse_failure length]. lia.
 Qed.
 
-Lemma no_problems_all_ok files :
-  total_messages files = O -> no_parse_failure files = true -> all_ok files = true.
+Lemma no_problems_all_ok files : problems files = O -> all_ok files = true.
 Proof.
-  unfold all_ok, no_parse_failure.
-  induction files as [|[fn o] files IH]; cbn [forallb total_messages snd]; [auto|].
-  intros Ht Hp. apply andb_true_iff in Hp. destruct Hp as [Hp Hr].
-  destruct o as [|[|v msgs]]; cbn in Hp, Ht; try discriminate.
-  cbn [file_ok andb]. apply IH; [lia|exact Hr].
+  unfold all_ok, problems.
+  induction files as [|[fn o] files IH]; cbn [forallb total_messages parse_failures snd]; [auto|].
+  intros H. destruct o as [|[|v msgs]]; cbn [n_messages is_parse_failure length] in H; try lia.
+  cbn [file_ok andb]. apply IH. lia.
 Qed.
 
-Lemma no_parse_failure_count files : no_parse_failure files = true -> parse_failures files = O.
-Proof.
-  unfold no_parse_failure. induction files as [|[fn o] files IH]; cbn [forallb parse_failures snd]; [auto|].
-  intros H. apply andb_true_iff in H. destruct H as [Ho Hr]. rewrite (IH Hr).
-  destruct o; [discriminate|reflexivity].
-Qed.
+Lemma all_ok_iff_no_problems files : all_ok files = true <-> problems files = O.
+Proof. split; [apply all_ok_no_problems|apply no_problems_all_ok]. Qed.
 
-(* success direction: holds for every input *)
-Lemma validate_all_ok_status_zero files : all_ok files = true -> validate_status files = 0.
-Proof.
-  intros H. rewrite validate_status_exact. destruct (all_ok_no_messages files H) as [-> _]. reflexivity.
-Qed.
+(* [U] status = 0 exactly when every matched file parsed and validated *)
+Lemma validate_exit_status files : validate_status files = 0 <-> all_ok files = true.
+Proof. rewrite validate_status_exact, all_ok_iff_no_problems. lia. Qed.
 
-(* [R] an unparseable file only: status 0 although not every file parsed *)
-Lemma validate_exit_status_refuted_parse_failure :
-  exists files, validate_status files = 0 /\ all_ok files = false /\ problems files = 1%nat.
-Proof. exists [([117], ParseFailed)]. split; [reflexivity|split; reflexivity]. Qed.
-
-(* [R] exactly 256 messages: status 0 although the file did not validate *)
-Lemma validate_exit_status_refuted_256 :
-  exists files, no_parse_failure files = true /\ total_messages files = 256%nat /\
-                validate_status files = 0 /\ all_ok files = false.
-Proof.
-  exists [([98], Validated (repeat (mk_vmsg (Some 1%Z) (Some 1%Z) [109] [101]) 256))].
-  split; [reflexivity|]. split; [vm_compute; reflexivity|]. split; [vm_compute; reflexivity|reflexivity].
-Qed.
-
-(* guarded version: without parse failures and with fewer than 256 messages
-   the status is 0 exactly when every file validated *)
-Lemma validate_exit_status_guarded files :
-  no_parse_failure files = true -> (total_messages files < 256)%nat ->
-  (validate_status files = 0 <-> all_ok files = true).
-Proof.
-  intros Hp Hlt. rewrite validate_status_exact. split.
-  - intros H. apply no_problems_all_ok; [|exact Hp].
-    rewrite N.mod_small in H by lia. lia.
-  - intros H. destruct (all_ok_no_messages files H) as [-> _]. reflexivity.
-Qed.
-
+(* [U] status = number of problems whenever that fits an exit status *)
 Lemma status_equals_count_when_small files :
-  (total_messages files < 256)%nat -> validate_status files = N.of_nat (total_messages files).
-Proof. intros H. rewrite validate_status_exact. apply N.mod_small. lia. Qed.
+  (problems files < 256)%nat -> validate_status files = N.of_nat (problems files).
+Proof. intros H. rewrite validate_status_exact. lia. Qed.
 
-(* under the guard the status meets the property's reading in full *)
-Lemma validate_status_meets_property_guarded files :
-  no_parse_failure files = true -> (total_messages files < 256)%nat ->
+(* [U] the status meets the property's reading in full, for every file list *)
+Lemma validate_status_meets_property files :
   status_meets_property files (validate_status files).
 Proof.
-  intros Hp Hlt. split; [exact (validate_exit_status_guarded files Hp Hlt)|].
-  unfold problems. rewrite (no_parse_failure_count files Hp), Nat.add_0_r.
-  intros _. exact (status_equals_count_when_small files Hlt).
+  split; [exact (validate_exit_status files)|exact (status_equals_count_when_small files)].
 Qed.
 
-(* exact characterisation of when the unguarded statement fails: the status
-   is 0 without all files being fine iff the message count is a multiple of
-   256 and something is wrong *)
-Lemma validate_false_success_iff files :
-  (validate_status files = 0 /\ all_ok files = false) <->
-  ((N.of_nat (total_messages files) mod 256 = 0)%N /\ all_ok files = false).
-Proof. rewrite validate_status_exact. tauto. Qed.
+(* beyond the cap the status is 255 (never 0 because the count wrapped) *)
+Lemma validate_status_capped files :
+  (255 <= problems files)%nat -> validate_status files = 255.
+Proof. intros H. rewrite validate_status_exact. lia. Qed.
+
+(* the former counterexamples now give a non-zero status *)
+Lemma validate_unparseable_only_status : validate_status [([117], ParseFailed)] = 1.
+Proof. reflexivity. Qed.
+
+Lemma validate_256_messages_status :
+  validate_status [([98], Validated (repeat (mk_vmsg (Some 1%Z) (Some 1%Z) [109] [101]) 256))] = 255.
+Proof. vm_compute. reflexivity. Qed.
 
 (* number of echoed lines: one per message, one per file without messages, one summary *)
 Lemma file_lines_length f :
